@@ -102,6 +102,32 @@ func (c *Ctx) connectFlagRefusals() {
 	c.R.Floor("flag-only refusing branches of the CONNECT decoder", nIf, 2)
 }
 
+// flagFold says what the folded byte is in the code at hand: the connect-flags byte of a CONNECT (default), or the
+// first byte of a packet in the header decoder.
+type flagFold struct {
+	// isLoad: v is a load of the byte
+	isLoad func(v *ssa.UnOp) bool
+	// isStoredTo: the address is the place the byte is kept in (a local stored there is the byte)
+	isStoredTo func(addr ssa.Value) bool
+	// calleeOK: calls of this function are folded through
+	calleeOK func(f *ssa.Function) bool
+}
+
+var connectFold = &flagFold{
+	isLoad: func(v *ssa.UnOp) bool {
+		p := ir.PathOf(v.X)
+		return len(p.Fields) > 0 && p.Fields[len(p.Fields)-1] == "connectFlags"
+	},
+	isStoredTo: func(addr ssa.Value) bool {
+		p := ir.PathOf(addr)
+		return len(p.Fields) > 0 && p.Fields[len(p.Fields)-1] == "connectFlags"
+	},
+	calleeOK: func(f *ssa.Function) bool { return recvNamed(f) == "ConnectMessage" },
+}
+
+// curFold is the configuration in force (the rules set and restore it; the checker is single-threaded per property).
+var curFold = connectFold
+
 // refusesAtOnce: the block (through unconditional jumps) ends in a return whose error result is not the nil constant.
 func refusesAtOnce(blk *ssa.BasicBlock) bool {
 	for i := 0; i < 3 && blk != nil; i++ {
@@ -151,7 +177,9 @@ func flagOnlyPosition(b *ssa.BasicBlock) bool {
 
 // reachesWithFlags: walking up the dominator tree from b, every flag-only branch that b lies strictly behind one
 // successor of lets the value f through to that successor.
-func reachesWithFlags(b *ssa.BasicBlock, f uint64) bool {
+func reachesWithFlags(b *ssa.BasicBlock, f uint64) bool { return reachesWithFlagsB(b, f, nil) }
+
+func reachesWithFlagsB(b *ssa.BasicBlock, f uint64, bind map[*ssa.Parameter]uint64) bool {
 	for d := b; d.Idom() != nil; d = d.Idom() {
 		id := d.Idom()
 		iff, ok := id.Instrs[len(id.Instrs)-1].(*ssa.If)
@@ -160,7 +188,7 @@ func reachesWithFlags(b *ssa.BasicBlock, f uint64) bool {
 		}
 		for idx, s := range id.Succs {
 			if (s == d || s.Dominates(d)) && len(s.Preds) == 1 && id.Succs[1-idx] != s {
-				v, _, ok := foldFlags(iff.Cond, f, nil, 0)
+				v, _, ok := foldFlags(iff.Cond, f, bind, 0)
 				if ok && (v != 0) != (idx == 0) {
 					return false
 				}
@@ -177,10 +205,7 @@ func foldFlags(v ssa.Value, f uint64, bind map[*ssa.Parameter]uint64, depth int)
 	if depth > 16 {
 		return 0, false, false
 	}
-	isFlagsField := func(addr ssa.Value) bool {
-		p := ir.PathOf(addr)
-		return len(p.Fields) > 0 && p.Fields[len(p.Fields)-1] == "connectFlags"
-	}
+	isFlagsField := curFold.isStoredTo
 	// a local that is also stored into the field
 	if _, isCall := v.(*ssa.Call); !isCall {
 		if refs := v.Referrers(); refs != nil {
@@ -232,7 +257,7 @@ func foldFlags(v ssa.Value, f uint64, bind map[*ssa.Parameter]uint64, depth int)
 	case *ssa.UnOp:
 		switch x.Op {
 		case token.MUL:
-			if isFlagsField(x.X) {
+			if curFold.isLoad(x) {
 				return f, false, true
 			}
 		case token.NOT:
@@ -299,23 +324,54 @@ func foldFlags(v ssa.Value, f uint64, bind map[*ssa.Parameter]uint64, depth int)
 		return foldPhi(x, f, bind, depth)
 	case *ssa.Call:
 		callee := x.Common().StaticCallee()
-		if callee == nil || callee.Blocks == nil || x.Common().IsInvoke() || recvNamed(callee) != "ConnectMessage" {
+		if callee == nil || callee.Blocks == nil || x.Common().IsInvoke() || !curFold.calleeOK(callee) {
 			return 0, false, false
 		}
 		rets := ir.Returns(callee)
-		if len(rets) != 1 || len(rets[0].Results) != 1 {
-			return 0, false, false
-		}
 		nb := map[*ssa.Parameter]uint64{}
 		for i, p := range callee.Params {
-			if i == 0 || i >= len(x.Common().Args) {
+			if i >= len(x.Common().Args) {
 				continue
+			}
+			if i == 0 && callee.Signature.Recv() != nil {
+				// a receiver that is itself a small value (Type) is an argument like any other
+				if _, isBasic := p.Type().Underlying().(*types.Basic); !isBasic {
+					continue
+				}
 			}
 			if u, _, ok := foldFlags(x.Common().Args[i], f, bind, depth+1); ok {
 				nb[p] = u
 			}
 		}
-		return foldFlags(rets[0].Results[0], f, nb, depth+1)
+		if len(rets) == 1 && len(rets[0].Results) == 1 {
+			return foldFlags(rets[0].Results[0], f, nb, depth+1)
+		}
+		// several returns (a switch over the value): follow the branches the value takes
+		blk := callee.Blocks[0]
+		for steps := 0; steps < 64; steps++ {
+			switch last := blk.Instrs[len(blk.Instrs)-1].(type) {
+			case *ssa.If:
+				cv, _, okc := foldFlags(last.Cond, f, nb, depth+1)
+				if !okc {
+					return 0, false, false
+				}
+				if cv != 0 {
+					blk = blk.Succs[0]
+				} else {
+					blk = blk.Succs[1]
+				}
+			case *ssa.Jump:
+				blk = blk.Succs[0]
+			case *ssa.Return:
+				if len(last.Results) != 1 {
+					return 0, false, false
+				}
+				return foldFlags(last.Results[0], f, nb, depth+1)
+			default:
+				return 0, false, false
+			}
+		}
+		return 0, false, false
 	}
 	return 0, false, false
 }
@@ -329,7 +385,7 @@ func foldPhi(x *ssa.Phi, f uint64, bind map[*ssa.Parameter]uint64, depth int) (u
 	found := 0
 	for i, pred := range blk.Preds {
 		// is pred reached for f, and does it go to blk?
-		if !reachesWithFlags(pred, f) {
+		if !reachesWithFlagsB(pred, f, bind) {
 			continue
 		}
 		if iff, ok := pred.Instrs[len(pred.Instrs)-1].(*ssa.If); ok {
@@ -356,4 +412,130 @@ func foldPhi(x *ssa.Phi, f uint64, bind map[*ssa.Parameter]uint64, depth int) (u
 		return 0, false, false
 	}
 	return res, true, true
+}
+
+// headerByteRefusals: the fixed-header decoder refuses a packet because of its first byte (packet type and flags) only
+// where MQTT 3.1.1 section 2.2 says that byte is malformed - folded for all 256 values, with the expected type taken
+// to be the type the byte carries. Malformed: type 0 or 15; flags other than the fixed ones (2 for PUBREL, SUBSCRIBE,
+// UNSUBSCRIBE, 0 otherwise) for every type but PUBLISH; PUBLISH with QoS 3. A PUBLISH with DUP set at QoS 0
+// [MQTT-3.3.1-2] may be refused or not.
+func (c *Ctx) headerByteRefusals() {
+	const rule = "T15-header-byte-refusals"
+	c.R.Rule(rule, "the branches of header.decode (and of the helpers it folds through: Type, Flags, Valid, DefaultFlags, ValidQos) that depend on the first byte of the packet alone are folded for all 256 values; a byte section 2.2 allows must not take a branch that returns an error at once, and (C03, C04, C11) every byte it calls malformed takes one.")
+	fn := c.P.Func("message", "header", "decode")
+	if fn == nil {
+		c.R.Unresolved("message.header.decode")
+		return
+	}
+	var src *ssa.Parameter
+	for _, p := range fn.Params {
+		if _, ok := p.Type().Underlying().(*types.Slice); ok {
+			src = p
+		}
+	}
+	sp := c.P.SPkgs["message"]
+	headerFold := &flagFold{
+		isLoad: func(v *ssa.UnOp) bool {
+			ia, ok := v.X.(*ssa.IndexAddr)
+			if !ok {
+				return false
+			}
+			base := ir.SeeThrough(ia.X)
+			// mtypeflags[0]
+			if ld, ok := base.(*ssa.UnOp); ok && ld.Op == token.MUL {
+				if p := ir.PathOf(ld.X); len(p.Fields) > 0 && p.Fields[len(p.Fields)-1] == "mtypeflags" {
+					return true
+				}
+			}
+			// src[0] / src[total] before the cursor has moved: an index that is the constant 0
+			if src != nil && base == ssa.Value(src) {
+				if k, ok := ir.SeeThrough(ia.Index).(*ssa.Const); ok && k.Value != nil && k.Value.ExactString() == "0" {
+					return true
+				}
+			}
+			return false
+		},
+		isStoredTo: func(addr ssa.Value) bool { return false },
+		calleeOK: func(f *ssa.Function) bool {
+			return f.Pkg == sp && (recvNamed(f) == "header" || recvNamed(f) == "Type" || f.Signature.Recv() == nil)
+		},
+	}
+	old := curFold
+	curFold = headerFold
+	defer func() { curFold = old }()
+
+	defFlags := func(t uint64) uint64 {
+		if t == 6 || t == 8 || t == 10 {
+			return 2
+		}
+		return 0
+	}
+	malformed := func(f uint64) bool {
+		t, fl := f>>4, f&15
+		switch {
+		case t == 0 || t == 15:
+			return true
+		case t == 3:
+			return (fl>>1)&3 == 3
+		}
+		return fl != defFlags(t)
+	}
+	either := func(f uint64) bool { return f>>4 == 3 && f&8 != 0 && (f>>1)&3 == 0 }
+	nIf := 0
+	refused := map[uint64]bool{}
+	for _, b := range fn.Blocks {
+		iff, ok := b.Instrs[len(b.Instrs)-1].(*ssa.If)
+		if !ok {
+			continue
+		}
+		if _, _, ok := foldFlags(iff.Cond, 0x30, nil, 0); !ok {
+			continue
+		}
+		if !flagOnlyPosition(b) {
+			continue
+		}
+		for idx := 0; idx < 2; idx++ {
+			if !refusesAtOnce(b.Succs[idx]) {
+				continue
+			}
+			nIf++
+			var bad []string
+			for f := uint64(0); f < 256; f++ {
+				v, _, okv := foldFlags(iff.Cond, f, nil, 0)
+				if !okv || (v != 0) != (idx == 0) {
+					continue
+				}
+				if !reachesWithFlags(b, f) {
+					continue
+				}
+				refused[f] = true
+				if malformed(f) || either(f) {
+					continue
+				}
+				if len(bad) < 4 {
+					bad = append(bad, fmt.Sprintf("0x%02x", f))
+				}
+			}
+			key := fmt.Sprintf("header.decode:first-byte-test@%d:refuses-only-malformed-bytes", nIf)
+			c.R.Check(len(bad) == 0, rule, key, c.P.InstrPos(iff), "every first byte that takes the refusing branch is malformed per MQTT 3.1.1 section 2.2",
+				"the header decoder refuses packets whose first byte is well formed (e.g. "+joinStr(bad, ", ")+"): a packet the specification allows - a retransmitted QoS 2 PUBLISH with DUP, say - ends the connection")
+		}
+	}
+	switch c.R.Property {
+	case "C03", "C04", "C11":
+		var miss []string
+		nm := 0
+		for f := uint64(0); f < 256; f++ {
+			if malformed(f) && !refused[f] {
+				nm++
+				if len(miss) < 4 {
+					miss = append(miss, fmt.Sprintf("0x%02x", f))
+				}
+			}
+		}
+		c.R.Check(nm == 0, rule, "header.decode:refuses-every-malformed-first-byte", c.P.Pos(fn.Pos()), "all 256 values: malformed per section 2.2 implies refused",
+			fmt.Sprintf("the header decoder accepts %d first bytes that MQTT 3.1.1 section 2.2 calls malformed (e.g. %s: a reserved packet type, reserved flag bits that are not the fixed ones, PUBLISH with QoS 3)", nm, joinStr(miss, ", ")))
+	}
+	c.R.Count("first-byte-only refusing branches of the header decoder", nIf)
+	c.R.Floor("first-byte-only refusing branches of the header decoder", nIf, 3)
 }
